@@ -243,10 +243,15 @@ asn_parse(uint8_t *buf, size_t buf_size, size_t *offset, size_t *hdr_size,
 		}
 	}
 	dt = cur_pos;
-	/* Flags check. */
-	if (ASN_ID_CLASS_UNIVERSAL == cls &&
-	    (ASN_ID_F_PC != asn_class_uni_ps[tag] && f_ps != asn_class_uni_ps[tag]))
+	if ((size_t)(max_pos - cur_pos) < dt_size) /* Short form length too. */
 		return (EBADMSG);
+	/* Flags check. */
+	if (ASN_ID_CLASS_UNIVERSAL == cls) {
+		if ((sizeof(asn_class_uni_ps) / sizeof(asn_class_uni_ps[0])) <= tag)
+			return (EBADMSG); /* No such universal tag. */
+		if (ASN_ID_F_PC != asn_class_uni_ps[tag] && f_ps != asn_class_uni_ps[tag])
+			return (EBADMSG);
+	}
 	/* Ok, return. */
 	if (NULL != offset) {
 		(*offset) = (off + h_size + dt_size);
